@@ -73,7 +73,7 @@ func binaryL(p *parser, bp oper.BP, lhs ast.Expr, t *token.Token) ast.Expr {
 
 func binaryR(p *parser, bp oper.BP, lhs ast.Expr, t *token.Token) ast.Expr {
 	name := ast.Var(t.Lexeme, t.Pos)
-	rhs := p.expr(bp - 1)
+	rhs := p.expr(bp.Prev())
 	rg := pos.Range(lhs, rhs)
 	return ast.Binary(name, oper.INFIX_R, lhs, rhs, rg)
 }
@@ -174,7 +174,7 @@ func parseQuestion(p *parser, bp oper.BP, l ast.Expr, t *token.Token) ast.Expr {
 	name := ast.Var(t.Lexeme, t.Pos)
 	m := p.expr(0)
 	p.mustEat(token.COLON)
-	r := p.expr(bp - 1)
+	r := p.expr(bp.Prev())
 	rg := pos.Range(l, r)
 	return ast.Tenary(name, l, m, r, rg)
 }
